@@ -32,7 +32,11 @@ PROP = {
             "a usable SourceError whose message contains `include nesting too deep`, want=ok: exactly the expected output, want=err:kind: "
             "that kind and not the depth error; the reference include (bounded by the same documented limit of 100) agrees on "
             "success/failure and output. The first case of (b) is first run in a killable worker process: if that process dies (the "
-            "unrepaired code) the clause include-cycle-process-death is reported and (b) is skipped.",
+            "unrepaired code) the clause include-cycle-process-death is reported and (b) is skipped. (c) implementation only, no case "
+            "line and no model answer (shard 0): ONE engine renders in sequence, in three orders, main templates parsed with paths in "
+            "different directories that include the same shared file, whose own relative include resolves against the directory of the "
+            "main template's path, on disk and through ParseTemplateAndCache; every render must equal the render on a fresh engine and "
+            "the expected result (reported under include-vs-reference).",
     "trusted_base": COMMON_TB + ["POSIX path/filepath (Clean/Join/Dir) and the operating system's file lookup",
                                  "the reference include uses the engine's own expression evaluation and ctx.Bindings()"],
     "assumptions": ["relative names resolve against the directory of the path the MAIN template was parsed with, also inside "
@@ -111,6 +115,8 @@ TEXT = {
               '(include_read_err_located) is not produced by any stream: a name that resolves to a directory is judged by the both-fail '
               'agreement with the reference include only. The path an error from an included file names is the including template\'s - '
               'this is what the code does, and it is recorded as an interpretation, not flagged.'),
-    "technique": ('Lean 4 proof (unfolding of the include handler of the render model) + model/implementation correspondence + '
+    "technique": ('Lean 4 proof (unfolding of the include handler of the render model; induction on the include fuel for the depth '
+              'theorems; the source-to-tree helper lemma run_spell of Proofs/SrcItems.lean, over the end-to-end front end of C19, for the '
+              'source-level ones) + model/implementation correspondence + '
               'differential oracle against a reference include'),
 }
